@@ -138,6 +138,8 @@ def run(prog, rep, tier):
     no_foreign_writes(rep, prog, U + "moral_graph", rule="OWN.moral")
     node_label_truthiness(rep, prog, [U + n_ for n_ in ['vstructures', 'moral_graph', 'is_clique', 'is_complete', 'degrees', 'induced_subgraph', 'only_directed', 'only_undirected', 'skeleton']])
     isin_over_sets(rep, prog, [U + n_ for n_ in ['vstructures', 'moral_graph', 'is_clique', 'is_complete', 'degrees', 'induced_subgraph', 'only_directed', 'only_undirected', 'skeleton']])
+    from .common import empty_subset_replaced
+    empty_subset_replaced(rep, prog, [(U + "is_clique", "S"), (U + "induced_subgraph", "S")])
     PW.rule_decompositions(prog, rep)
     PW.rule_counts(prog, rep)
     rep.require_count("PW.table", 8)
